@@ -15,7 +15,7 @@ from ..core import Undecided
 
 _counter = itertools.count()
 
-MATH_PURE = {"log10", "log", "exp", "sqrt", "pow", "fabs", "sinh", "cosh", "tanh", "floor", "ceil", "log1p", "erfc", "atan", "sin", "cos"}
+MATH_PURE = {"log10", "log", "exp", "sqrt", "pow", "fabs", "sinh", "cosh", "tanh", "floor", "ceil", "log1p", "erfc", "atan", "sin", "cos", "fmod", "acos"}
 
 REAL_T = ("double", "float", "long double", "LDBLE")
 INT_T = ("int", "long", "unsigned int", "unsigned long", "short", "unsigned short", "char", "signed char", "unsigned char",
@@ -731,6 +731,10 @@ class Exec(object):
             if tm.isnum(a) and tm.isnum(b):
                 x, y = int(a.args[0]), int(b.args[0])
                 return tm.num({"&": x & y, "|": x | y, "^": x ^ y, "<<": x << y, ">>": x >> y}[op], "I")
+            if op == "&" and tm.isnum(b) and b.args[0] == 1:
+                return tm.app("emod2", (a,), "I")       # x & 1 in two's complement = x mod 2 (Euclidean)
+            if op == "&" and tm.isnum(a) and a.args[0] == 1:
+                return tm.app("emod2", (b,), "I")
             return tm.app({"&": "bitand", "|": "bitor", "^": "bitxor", "<<": "shl", ">>": "shr"}[op], (a, b), "I")
         raise Undecided("binary operator %s" % op)
 
@@ -823,7 +827,12 @@ class Exec(object):
             if recv_is_ptr:
                 recvs = self.ev(recv_node, st)
             else:
-                recvs = [(s, self.address(s, l)) for s, l in self.lv(recv_node, st)]
+                recvs = []
+                for s, l in self.lv(recv_node, st):
+                    if strip_type(self.qt(recv_node)) in STRING_T and l[0] in ("local", "value"):
+                        recvs.append((s, self.load(s, l, "S")))       # a std::string local is a value
+                    else:
+                        recvs.append((s, self.address(s, l)))
         for s1, recv in recvs:
             for s2, args in self.ev_args(arg_nodes, s1):
                 out.extend(self.apply_call(n, s2, name, recv, args, arg_nodes))
@@ -1382,7 +1391,7 @@ class Exec(object):
                 self.havoc_heap(s, "loop")
         return states
 
-    def iterate_loop(self, n, st, assume_cond=True):
+    def iterate_loop(self, n, st, assume_cond=True, prepare=None):
         """iteration contract: run the body once for an arbitrary value of the induction variable(s)
         on the loop-entry state in which every local the loop assigns is arbitrary.
         Returns the states at the end of the body (before the increment)."""
@@ -1407,6 +1416,8 @@ class Exec(object):
                     v = s.locals.get(did)
                     if not isinstance(v, tuple):
                         s.locals[did] = tm.sym("iter_" + str(name), sort_of(q))
+                if prepare is not None:
+                    prepare(self, s)          # facts about the arbitrary iteration state (a case of the contract)
                 s.events.append(Event("iter_begin", None, [], tm.num(0, "I")))
                 if cond is not None and assume_cond:
                     for s2, v in self.ev(cond, s):
